@@ -31,6 +31,7 @@ def queries():
         S(items=[F('a', 1), F('a', 2)], distinct='count'),
         {'kind': 'update', 'assign': [(F('a', 2), ('lit', 'U'))], 'where': w, 'join': None}, {'kind': 'update', 'assign': [(F('a', 1), ('cat', F('a', 1), F('a', 3)))], 'where': None, 'join': None},
         {'kind': 'update', 'assign': [(F('a', 2), F('b', 2))], 'where': None, 'join': J('JOIN')},
+        S(items=[('NR',), ('cmp', '==', F('a', 1), ('lit', 'k')), ('cmp', '!=', F('a', 1), ('lit', 'k')), ('tofloat', ('NR',)), ('arith', '-', ('NR',), ('int', 1))]),     # True / 1 / 1.0 and False / 0 in one output: equal as values, different as text
         S(items=[F('a', 1)], where=('raw_parse_error',)),        # replaced by a textual mistake below
         S(items=[('toint', F('a', 1))]),                           # runtime error at record 1
     ]
@@ -228,6 +229,22 @@ def run_api_entry_points(res, q, A, hdr, exp, scratch):
     if not (exp.error is None and not exp.records and exp.header is None):
         # an empty, header-less pandas result has no observable columns; everything else is compared
         judge(res, 'pandas', q, text, A, hdr, exp, recs, cols, err)
+    # E7b dataframes whose column labels repeat (legal in pandas): positional queries give what query_table gives for the same name list
+    if hdr and len(A[0]) >= 2 and not any(isinstance(x, tuple) and x and x[0] == 'named' for it in (q.get('items') or []) for x in refql.walk(it)) and 'named' not in repr(q.get('assign')) and 'named' not in repr(q.get('where')):
+        dup = list(an)
+        dup[1] = dup[0]
+        exp_d = refql.evaluate(q, A, B if q.get('join') else None, dup, BNAMES if q.get('join') else None) if q.get('where') != ('raw_parse_error',) else exp
+        got = drive.run_py(text, qcheck.copy_table(A), qcheck.copy_table(useB), dup, bn if useB else None)
+        judge(res, 'query_table_duplicate_names', q, text, A, hdr, exp_d, got['records'], got['header'], got['error'][0] if got['error'] else None, {'names': dup})
+        recs, cols, err = None, None, None
+        try:
+            o = rb.query_pandas_dataframe(text, pd.DataFrame(A, columns=dup), [], jdf)
+            recs = [list(r) for r in o.itertuples(index=False)]
+            cols = None if isinstance(o.columns, pd.RangeIndex) else [str(c) for c in o.columns]
+        except Exception as e:
+            err = err_class(e)
+        if not (exp_d.error is None and not exp_d.records and exp_d.header is None):
+            judge(res, 'pandas_duplicate_labels', q, text, A, hdr, exp_d, recs, cols, err, {'labels': dup})
     # E4 query_csv on files + E8 sqlite (header mode only)
     p1, p2, po = [os.path.join(scratch, n) for n in ('t1.csv', 't2.csv', 'out.csv')]
     with open(p1, 'w', newline='', encoding='utf-8') as f:
@@ -603,7 +620,7 @@ def main(tier, seed):
              'the CLI in-process under 6 configurations x {file, stdin->stdout} with special-cell tables for explicit policies, the `rbql sqlite` command line in-process (--out-format omitted / csv / tsv x file / stdout, cells with line breaks and tabs), and real `python -m rbql` subprocesses rotating over all configurations; non-trivial = a successful run that agrees with RefQL',
         assumptions=['results are compared after str(); expressions are type-agnostic over string cells', 'child processes run with PYTHONWARNINGS=ignore (Python 3.12 prints its own SyntaxWarning when compiling rbql_engine.py from source)'],
         extra={'cli_configurations': [list(c[:3]) + [cfg_enc(c)] for c in CLI_CFGS]},
-        min_features={'ep_query_table': 100, 'ep_query_registry_from': 1000, 'ep_query_custom_classes': 100, 'ep_query_csv': 100, 'ep_query_csv_comment_prefix': 100, 'ep_pandas': 100, 'ep_sqlite_to_csv': 50, 'ep_cli_inprocess_file': 300, 'ep_cli_inprocess_stdin': 300,
+        min_features={'ep_query_table': 100, 'ep_query_registry_from': 1000, 'ep_pandas_duplicate_labels': 50, 'ep_query_custom_classes': 100, 'ep_query_csv': 100, 'ep_query_csv_comment_prefix': 100, 'ep_pandas': 100, 'ep_sqlite_to_csv': 50, 'ep_cli_inprocess_file': 300, 'ep_cli_inprocess_stdin': 300,
                       'ep_cli_sqlite_file': 300, 'ep_cli_sqlite_stdout': 300, 'ep_cli_subprocess_file': 30, 'ep_cli_subprocess_stdin': 30, 'cli_failures_ok': 20, 'failing_agree': 20})
 
 
